@@ -919,3 +919,22 @@ func init() {
 	}
 	intrinsics["(time.Time).Unix"] = func(fr *frame, fn *ssa.Function, a []value) value { return int64(0) }
 }
+
+func init() {
+	// errors.joinError.Error builds its text with unsafe.String.
+	intrinsics["(*errors.joinError).Error"] = func(fr *frame, fn *ssa.Function, a []value) value {
+		p := a[0].(*value)
+		if p == nil {
+			fr.rtPanic("invalid memory address or nil pointer dereference")
+		}
+		errs := (*p).(structure)[0].([]value)
+		var out value = ""
+		for k, e := range errs {
+			if k > 0 {
+				out = strConcat(out, "\n")
+			}
+			out = strConcat(out, fr.i.errorValue(fr, e.(iface)))
+		}
+		return out
+	}
+}
